@@ -318,6 +318,33 @@ fn check_content(case: &ContentCase, sink: &Sink) {
     });
 }
 
+/// Start tags split over several lines of a multi-line comment: `ctx.line` is the line of `<`.
+fn check_multiline_tag(host: usize, sink: &Sink) {
+    KIT.with(|kit| {
+        let script = kit.script(0);
+        let (file, text, tag_line, content) = match host {
+            0 => ("x.js", format!("/* note\n   <block id=\"c\"\n      check-lua=\"{script}\"> */\nv = 1\n/* </block> */\n"), 2usize, "v = 1"),
+            1 => ("x.html", format!("<p>t</p>\n<!-- <block id=\"c\"\n   check-lua=\"{script}\"> -->\ntext\n<!-- </block> -->\n"), 2, "text"),
+            _ => ("x.rs", format!("/**\n * note\n * <block id=\"c\"\n *   x=\"1\"\n *   check-lua=\"{script}\">\n */\nconst X: u8 = 1;\n// </block>\n"), 3, "const X: u8 = 1;"),
+        };
+        let input_json = json!({"multiline_tag": host});
+        kit.reset_log();
+        sink.exec();
+        let outcome = crate::librun::run(&Input { files: vec![(file.into(), text.clone())], ..Default::default() });
+        let calls = kit.calls();
+        sink.outcome(format!("multiline-tag:{}", outcome.class()));
+        match (&outcome, calls.as_slice()) {
+            (Outcome::Report { diags, .. }, [c]) if diags.is_empty() => {
+                if c.1 != file || c.2 != tag_line || c.4 != content {
+                    sink.fail("C18:multiline-tag:wrong-file-line-or-content", format!("start tag on lines {tag_line}.. of a multi-line comment in {file}: validate got file {:?}, line {}, content {:?}\n{text}", c.1, c.2, c.4), input_json.clone());
+                }
+            }
+            (other, calls) => sink.fail("C18:multiline-tag:unexpected-outcome", format!("{file}: {} calls, outcome {}\n{text}", calls.len(), other.to_json()), input_json.clone()),
+        }
+        sink.nontrivial();
+    });
+}
+
 /// Large block sets: identity, reverse and rotation delivery orders only (capped).
 fn check_large(k: usize, failing_at: Option<usize>, sink: &Sink) -> u64 {
     let mut n = 0;
@@ -428,6 +455,7 @@ pub fn run(cfg: &Cfg, sink: &Arc<Sink>) -> Report {
     }
     let n = cases.len();
     report.phase(engine::explore("content × pattern × attributes", &format!("{n} cases (full product)"), Grid { cases, check: |c: &ContentCase, s: &Sink| check_content(c, s) }, sink, cfg.threads, false));
+    report.phase(engine::explore("start tags split over lines of a multi-line comment", "3 hosts (JS block comment, HTML comment, Rust decorated doc comment)", Grid { cases: vec![0usize, 1, 2], check: |h: &usize, s: &Sink| check_multiline_tag(*h, s) }, sink, cfg.threads, false));
     let mut n = 0;
     for k in [8usize, 16, 40] {
         for failing_at in [None, Some(0), Some(k / 2), Some(k - 1)] {
@@ -443,7 +471,9 @@ pub fn run(cfg: &Cfg, sink: &Arc<Sink>) -> Report {
 
 pub fn replay(cfg: &Cfg, input: &Value, sink: &Arc<Sink>) {
     prepare_env();
-    if input.get("cli").is_some() {
+    if let Some(h) = input.get("multiline_tag").and_then(Value::as_u64) {
+        check_multiline_tag(h as usize, sink);
+    } else if input.get("cli").is_some() {
         cli_supplement(cfg, sink);
     } else if let Some(k) = input.get("large").and_then(Value::as_u64) {
         check_large(k as usize, input["failing_at"].as_u64().map(|v| v as usize), sink);
